@@ -326,3 +326,24 @@ Definition api_call (a : api) (c : call) : res :=
   | CRead i => match nth_error (a_rstreams a) i with Some r => r_read r | None => RBlock end
   | CWrite i => match nth_error (a_sstreams a) i with Some s => s_write s | None => RBlock end
   end.
+
+(** * How run() ends, and what is left in the transport's routing table
+
+    run() has two ways out. If cryptoStreamHandler.StartHandshake (or the first
+    handleHandshakeEvents) fails it RETURNS THE ERROR BEFORE THE LOOP: handleCloseError is never
+    called (no fan-out, no connIDGenerator action, timer not stopped). Otherwise it leaves the loop
+    with the recorded close error and runs handleCloseError. *)
+Inductive exit :=
+| ExitEarly (e : errk)
+| ExitLoop (ce : closeError).
+
+(** routing entry kind of the connection's IDs [elapsed] after run() returned (expiry = 3 PTO):
+    0 none, 1 closedLocalConn, 2 closedRemoteConn, 3 still the connection itself *)
+Definition exit_routing (client sentFirstPacket : bool) (x : exit) (elapsed expiry : Z) : Z :=
+  match x with
+  | ExitEarly _ => 3
+  | ExitLoop ce => if expiry <=? elapsed then 0 else routing_after (close_action client sentFirstPacket ce)
+  end.
+(** what the API objects were closed with *)
+Definition exit_fanout (x : exit) : option errk :=
+  match x with ExitEarly _ => None | ExitLoop ce => Some (mapped_err ce) end.
